@@ -222,7 +222,35 @@ impl<'w> FnTr<'w> {
 
     // ---------- types ----------
 
-    pub fn resolve_type(&self, ty: &syn::Type) -> Res<RTy> { resolve_type_s(self.world, ty, self.target.container.ns(), &self.subst, self.bits).map_err(|m| self.err(ty, &m)) }
+    pub fn resolve_type(&self, ty: &syn::Type) -> Res<RTy> {
+        if self.bits { if let Some(n) = table_type_name(self.world, ty) { return Ok(RTy::Table(n)); } }
+        let t = resolve_type_s(self.world, ty, self.target.container.ns(), &self.subst, self.bits).map_err(|m| self.err(ty, &m))?;
+        self.pack_elems(t).map_err(|m| self.err(ty, &m))
+    }
+
+    /// in a bit-manipulating function a `Vec<S>` / `[S]` of a FLATTENED struct `S` is a list of packed values (tuples of the fields)
+    pub fn pack_elems(&self, t: RTy) -> Result<RTy, String> {
+        match t {
+            RTy::VecFn(el) | RTy::VecList(el) if self.bits && matches!(*el, RTy::Flat(_)) => {
+                let n = match *el { RTy::Flat(n) => n, _ => unreachable!() };
+                Ok(RTy::VecList(Box::new(self.packed_type(&n)?)))
+            }
+            t => Ok(t),
+        }
+    }
+
+    /// the packed form of the flattened struct `n`: the tuple of its fields (primitives only), in declaration order
+    pub fn packed_type(&self, n: &str) -> Result<RTy, String> {
+        let si = self.world.structs.get(n).ok_or_else(|| format!("struct `{}` is not registered", n))?;
+        let mut tys = vec![];
+        for (f, fty) in &si.fields {
+            let t = self.resolve_field_type(fty, n).map_err(|m| format!("field `{}.{}`: {}", n, f, m))?;
+            if !matches!(t, RTy::Int(_) | RTy::Bool | RTy::Char | RTy::U64) { return Err(format!("field `{}.{}`: only primitive fields are supported in a packed struct value", n, f)); }
+            tys.push(t);
+        }
+        if tys.is_empty() { return Err(format!("struct `{}` has no fields", n)); }
+        Ok(RTy::Packed(n.to_string(), tys))
+    }
 
     /// type of a field of the struct `sname` (generic parameters instantiated as in the `impl` header)
     pub fn resolve_field_type(&self, ty: &syn::Type, sname: &str) -> Result<RTy, String> {
@@ -249,6 +277,21 @@ impl<'w> FnTr<'w> {
 
     pub fn int_of<T: Spanned + ToTokens>(&self, node: &T, t: &RTy) -> Res<IntTy> {
         t.int().ok_or_else(|| self.err(node, &format!("integer type expected, found {}", t.rust())))
+    }
+}
+
+/// `&Magics` etc.: the name of the opaque table type (`targets::TABLE_TYPES`) this type denotes
+pub fn table_type_name(world: &World, ty: &syn::Type) -> Option<String> {
+    match ty {
+        syn::Type::Reference(r) => table_type_name(world, &r.elem),
+        syn::Type::Paren(p) => table_type_name(world, &p.elem),
+        syn::Type::Group(p) => table_type_name(world, &p.elem),
+        syn::Type::Path(p) if p.qself.is_none() && p.path.segments.len() == 1 && p.path.segments[0].arguments.is_none() => {
+            let n = p.path.segments[0].ident.to_string();
+            // (the name must be the alias of the table, not a registered struct / enum / primitive alias of that name)
+            if crate::targets::TABLE_TYPES.iter().any(|t| t.0 == n) && world.raw_aliases.contains_key(&n) && !world.structs.contains_key(&n) && !world.enums.contains_key(&n) { Some(n) } else { None }
+        }
+        _ => None,
     }
 }
 
